@@ -3,9 +3,9 @@
 //! Case lines (first token selects the mode), one result line per case:
 //!   NE <hex>                       escape_filename via Node::new_node          -> ok <hex>
 //!   NU <hex>                       Node::name() of a stored name (valid UTF-8) -> ok <hex> | badutf8
-//!   R  <n> {len}* <q> {off len}*   OpenFile::read_at over blobs of the given lengths (stored through
-//!                                  the packer hook), queries (off,len)          -> ok {len:sum}*
-//!   P  <pack_size> <nseg> {<is_tree> <n> {id len}*}*   scripted Packer/Indexer run (hook)
+//!   R  <n> {hex}* <q> {off len}*   OpenFile::read_at over the given blobs (stored through the packer
+//!                                  hook), queries (off,len)                     -> ok {len:sum}* dump=len:sum
+//!   P  <pack_size> <nseg> {<is_tree> <n> {id hex}*}*   scripted Packer/Indexer run (hook)
 //!                                  -> ok packs=<n> {T|D:<id>=<len:sum>|-}*
 //!   E  <seed> <ver> <comp> <chunker> <csize> <cmin> <cmax> <dpack> <tpack> <entries> <depth> <maxfile> <flags>
 //!                                  full backup + every read-back                -> ok k=v ... | FAIL sig=<s> what=<...>
@@ -29,10 +29,6 @@ fn tohex(b: &[u8]) -> String {
     if b.is_empty() { "-".into() } else { hex::encode(b) }
 }
 
-/// deterministic content of a scripted blob: a function of (id, len) only
-fn blob_bytes(id: u64, len: usize) -> Vec<u8> {
-    Content::Random { seed: id.wrapping_mul(0x9E37_79B9).wrapping_add(len as u64), len }.bytes()
-}
 fn sum(b: &[u8]) -> u64 {
     b.iter().enumerate().fold(0u64, |a, (i, x)| (a + (*x as u64) * ((i % 251) as u64 + 1)) % 1_000_000_007)
 }
@@ -79,10 +75,8 @@ fn plain_repo(_compress: bool) -> anyhow::Result<RepoOpen> {
 
 fn read_case(t: &mut Toks) -> anyhow::Result<String> {
     let n = t.u() as usize;
-    let lens: Vec<usize> = (0..n).map(|_| t.u() as usize).collect();
-    // distinct blobs: ids 1..; the same length may occur several times
-    let blobs: Vec<(Id, Vec<u8>)> =
-        lens.iter().enumerate().map(|(i, l)| (id_from_u64(i as u64 + 1), blob_bytes(i as u64 + 1, *l))).collect();
+    // distinct blobs: ids 1.. (the same bytes may occur several times under different ids)
+    let blobs: Vec<(Id, Vec<u8>)> = (0..n).map(|i| (id_from_u64(i as u64 + 1), unhex(t.s()))).collect();
     let repo = plain_repo(false)?;
     rustic_core::verif_hooks::c01::run_packer_segments(&repo, 1 << 20, &[(false, blobs.clone())])?;
     let repo = repo.to_indexed()?;
@@ -112,9 +106,9 @@ fn pipe_case(t: &mut Toks) -> anyhow::Result<String> {
         let n = t.u() as usize;
         let mut blobs = Vec::new();
         for _ in 0..n {
-            let (id, len) = (t.u(), t.u() as usize);
+            let id = t.u();
             let _ = ids.insert(id);
-            blobs.push((id_from_u64(id), blob_bytes(id, len)));
+            blobs.push((id_from_u64(id), unhex(t.s())));
         }
         segs.push((is_tree, blobs));
     }
@@ -378,40 +372,47 @@ fn e2e_case(t: &mut Toks) -> Result<String, Fail> {
     let mut entries = build_tree(&c, &mut r);
     let cfgo = config_of(&c);
     let mut collisions_planted = 0usize;
+    let src = tempfile::tempdir().map_err(|e| infra(e.into()))?;
+    materialize(src.path(), &entries).map_err(infra)?;
     if c.flags & F_COLLIDE_TREES != 0 {
-        // pass 1 into a scratch repository with the same configuration: learn the serialized subtrees
-        let src = tempfile::tempdir().map_err(|e| infra(e.into()))?;
-        materialize(src.path(), &entries).map_err(infra)?;
+        // pass 1 of the SAME directory into a scratch repository with the same configuration: learn
+        // the serialized subtrees (they contain inode and ctime, so the directory must stay), then
+        // plant files with exactly these bytes in the root (the subtrees themselves do not change)
         let (repo, _k) = init_repo_ver(mem(), c.version, &cfgo).map_err(|e| fail("config-refused", format!("{e:#}")))?;
         if let Ok((repo, snap)) = backup_dir(repo, src.path(), "src", None) {
             if let Ok(repo) = repo.to_indexed() {
                 let (trees, _, _) = walk_trees(&repo, snap.tree);
-                // the subtrees of directories (not the root, not the as_path wrapper): plant copies in the root
-                let mut k = 0;
-                for (id, bytes) in &trees {
-                    if *id == *snap.tree || bytes.len() > 200_000 || k >= 4 {
-                        continue;
-                    }
-                    // skip the wrapper tree `src` (it contains the root which will change)
-                    if let Ok(tr) = repo.get_tree(&TreeId::from(*id)) {
-                        if tr.nodes.iter().any(|n| n.subtree.is_some_and(|s| !trees.contains_key(&*s))) {
-                            continue;
+                // the root of the source and its wrapper `src` change when files are added: skip them
+                let mut skip: BTreeSet<Id> = BTreeSet::new();
+                let _ = skip.insert(*snap.tree);
+                if let Ok(tr) = repo.get_tree(&snap.tree) {
+                    for n in tr.nodes {
+                        if let Some(st) = n.subtree {
+                            let _ = skip.insert(*st);
                         }
                     }
-                    entries.push(Entry {
+                }
+                let mut k = 0;
+                for (id, bytes) in &trees {
+                    if skip.contains(id) || bytes.len() > 200_000 || k >= 4 {
+                        continue;
+                    }
+                    let e = Entry {
                         path: PathBuf::from(format!("a_tree_copy{k}")),
                         kind: Kind::File(Content::Literal(bytes.clone())),
                         mode: 0o644,
                         mtime: (1_600_000_000 + k as i64, 5),
-                    });
+                    };
+                    let pth = src.path().join(&e.path);
+                    std::fs::write(&pth, bytes).map_err(|e| infra(e.into()))?;
+                    set_mtime(&pth, e.mtime).map_err(infra)?;
+                    entries.push(e);
                     k += 1;
                 }
                 collisions_planted = k;
             }
         }
     }
-    let src = tempfile::tempdir().map_err(|e| infra(e.into()))?;
-    materialize(src.path(), &entries).map_err(infra)?;
     let store = mem();
     let (repo, key) = init_repo_ver(store.clone(), c.version, &cfgo).map_err(|e| fail("config-refused", format!("{e:#}")))?;
     let (repo, snap) = backup_dir(repo, src.path(), "src", None).map_err(|e| fail("backup-error", format!("backup failed: {e:#}")))?;
